@@ -158,6 +158,8 @@ def run_case(ctx, G, text, l, rgL, cyclic, lexer, w, family, walkers):
     feats = ['family:' + family]
     problems = []
 
+    over_budget = []
+
     def walk(label, fn):
         o = call(ctx, label, fn, raw=True)
         ctx.monitor('visitor-walks')
@@ -165,6 +167,9 @@ def run_case(ctx, G, text, l, rgL, cyclic, lexer, w, family, walkers):
             ctx.inconc('wall guard in ' + label, case)
             return None
         if o[0] != 'ok':
+            if o[0] == 'budget' and cyclic and label in EXPONENTIAL_WALKS:
+                over_budget.append((label, o))       # judged below, once the linear walks have been seen
+                return None
             problems.append((label + ('-no-termination' if o[0] == 'budget' else '-raises'), o))
             return None
         return o
@@ -179,6 +184,17 @@ def run_case(ctx, G, text, l, rgL, cyclic, lexer, w, family, walkers):
     walk('identity-transform', lambda: Ident().transform(root))
     t_all = walk('tft-all', lambda: TreeForestTransformer(resolve_ambiguity=False).transform(root))
     t_one = walk('tft-resolve', lambda: TreeForestTransformer(resolve_ambiguity=True).transform(root))
+    if over_budget:
+        # Walks that follow every path (no single_visit) visit a node once per path that leads to it: exponentially often on
+        # the forests of cyclic grammars (a factor of ~20 per input character was measured), so a step budget cannot tell
+        # "exponentially many visits" from "never".  They are excused on cyclic grammars iff the walks that are linear in the
+        # forest - single_visit and the one-node walker, which go through the same cycle guards - ended on this forest.
+        linear_ok = not any(m.startswith(('visit-single', 'visit-returning-one-node')) for m, _ in problems)
+        for label, o in over_budget:
+            if linear_ok:
+                ctx.count('cyclic:%s-exceeds-budget-while-linear-walks-terminate(not judged)' % label)
+            else:
+                problems.append((label + '-no-termination', o))
     cycles = w1.cycles + w2.cycles + cnt.cycles + w3.cycles
     if cycles:
         feats.append('on_cycle-reported')
@@ -228,6 +244,9 @@ def run_case(ctx, G, text, l, rgL, cyclic, lexer, w, family, walkers):
         if mech in ('derivation-count-differs', 'is_ambiguous-on-single-derivation') and not cyclic:
             finding = classify_start_carry(ctx, G, lexer, w, nd, walkers)
         ctx.violation(mech + ':' + lexer, case, {'detail': det}, finding)
+
+
+EXPONENTIAL_WALKS = ('visit', 'count-transform', 'identity-transform', 'tft-all')
 
 
 def classify_start_carry(ctx, G, lexer, w, nd, walkers):
